@@ -3,12 +3,12 @@ C08 driver: parses the case lines that the harness executes against the real dri
 (`model` mode) or the specification oracle on an implementation trace (`judge` mode).
 
 Case lines (shared with harness/c08/c08.c):
-  script o<k> create|init|mod <op>;<op>;...   the n-th such line is the script of the n-th invocation of that hook of
+  script o<k> create|init|mod|act <op>;<op>;...   the n-th such line is the script of the n-th invocation of that hook of
                                               object k; all script lines come before the first command
   t <op>                                      master->do_op(op)   (top level)
   snap | probe | gc
 op syntax (comma separated):  ld,<file> | cl,<file> | mv,o<a>,o<d> | de,o<a> | ec,o<a> | dc,o<a> | ln,o<a>,<name> |
-  fo,<file>[#<n>] | fl,<name> | kp,o<a> | rd | err | mvarg | nop          <file> ::= b<k> | nx | bad
+  fo,<file>[#<n>] | fl,<name> | aa,o<a>,<verb> | cmd,o<a>,<verb> | kp,o<a> | rd | err | mvarg | nop          <file> ::= b<k> | nx | bad
 -/
 import NV.Common.Proto
 import NV.C08.Model
@@ -45,6 +45,8 @@ def parseOp (s : String) : Option Op :=
   | ["ln", a, n] => (parseOid a).map (.ln · n)
   | ["fo", n] => (parseName n).map .fo
   | ["fl", n] => some (.fl n)
+  | ["aa", a, v] => (parseOid a).map (.aa · v)
+  | ["cmd", a, v] => (parseOid a).map (.cmd · v)
   | ["kp", a] => (parseOid a).map .kp
   | ["rd"] => some .rd
   | ["err"] => some .err
@@ -53,7 +55,8 @@ def parseOp (s : String) : Option Op :=
   | _ => none
 
 def parseHook (s : String) : Option Hook :=
-  if s == "create" then some .create else if s == "init" then some .init else if s == "mod" then some .mod else none
+  if s == "create" then some .create else if s == "init" then some .init else if s == "mod" then some .mod
+  else if s == "act" then some .act else none
 
 structure Parsed where
   scripts : List ((Nat × Hook) × List Op) := []      -- in file order
